@@ -137,7 +137,7 @@ func RunC11(c *Ctx) error {
 		}
 	}
 	identity := simrt.Plan{Map: simrt.MapPlan{Policy: "identity"}, Clock: 1700000000, Pid: 4242, TickBudget: 5e8}
-	err = c.ParallelDo(len(cfgs), func(w, i int) error {
+	err = c.ShardedDo(len(cfgs), func(i int) int { return i }, func(w, i int) error {
 		cf := cfgs[i]
 		gc := cases[cf.gi]
 		spec := engine.Spec{GrammarID: gc.ID, GrammarText: gc.Text, GrammarFile: gc.File, Flags: cf.flags}
@@ -221,7 +221,7 @@ func RunC11(c *Ctx) error {
 		}
 	}
 	c.Logf("%d grammars x %d flag sets = %d configurations, %d planned runs", len(cases), len(flagSets), len(cfgs), len(jobs))
-	err = c.ParallelDo(len(jobs), func(w, i int) error {
+	err = c.ShardedDo(len(jobs), func(i int) int { return jobs[i].fi }, func(w, i int) error {
 		j := jobs[i]
 		r, err := workers[w].Exec(g.Sim, &j.spec, timeout)
 		if err != nil {
@@ -271,7 +271,7 @@ func RunC11(c *Ctx) error {
 			}
 		}
 	}
-	err = c.ParallelDo(len(obsJobs), func(w, i int) error {
+	err = c.ShardedDo(len(obsJobs), func(i int) int { return obsJobs[i].ci }, func(w, i int) error {
 		o := obsJobs[i]
 		cf := cfgs[o.ci]
 		gc := cases[cf.gi]
@@ -308,7 +308,7 @@ func RunC11(c *Ctx) error {
 				rjobs = append(rjobs, &rjob{ci: ci})
 			}
 		}
-		err = c.ParallelDo(len(rjobs), func(w, i int) error {
+		err = c.ShardedDo(len(rjobs), func(i int) int { return rjobs[i].ci }, func(w, i int) error {
 			cf := cfgs[rjobs[i].ci]
 			gc := cases[cf.gi]
 			spec := engine.Spec{GrammarID: gc.ID, GrammarText: gc.Text, GrammarFile: gc.File, Flags: cf.flags, GOMAXPROCS: 16, RaceLog: true}
